@@ -265,6 +265,17 @@ def run_flavor(flavor: str, net: Net, fn, seed: int = 0, on_idle=None):
         sync_env_restore()
 
 
+def _find_simhang(eg):
+    for e in eg.exceptions:
+        if isinstance(e, simnet.SimHang):
+            return e
+        if isinstance(e, BaseExceptionGroup):
+            r = _find_simhang(e)
+            if r is not None:
+                return r
+    return None
+
+
 async def guarded(flavor: str, fn, horizon: float = 1.0e5):
     """Run one scenario `await fn()`; returns an Outcome (ok | exc | hang). 'hang' means the
     virtual-time watchdog fired (async) or the call could never be woken (sync)."""
@@ -278,6 +289,12 @@ async def guarded(flavor: str, fn, horizon: float = 1.0e5):
                 return Outcome("exc", exc=exc)
             except simnet.SimHang as exc:
                 return Outcome("hang", value=str(exc))
+            except BaseExceptionGroup as eg:
+                # the operation budget ran out in one of several tasks of the scenario: the task group wraps it
+                hang = _find_simhang(eg)
+                if hang is None:
+                    raise
+                return Outcome("hang", value=str(hang))
         if scope.cancelled_caught:
             return Outcome("hang", value="virtual watchdog")
         return Outcome("ok", None)
@@ -290,7 +307,8 @@ async def guarded(flavor: str, fn, horizon: float = 1.0e5):
 
 
 def run_threaded(setup, seed: int = 0, strategy: str = "random", p: float = 0.1, lines: bool = False,
-                 depth: int = 2, est_steps: int = 3000, wall_timeout: float = 60.0, p_jump: float = 0.0):
+                 depth: int = 2, est_steps: int = 3000, wall_timeout: float = 60.0, p_jump: float = 0.0,
+                 opcodes: bool = False):
     """Run callers on real threads under the controlled scheduler.
 
     setup(sched) -> dict name -> zero-arg function (run in its own managed thread); it is called after the
@@ -328,12 +346,16 @@ def run_threaded(setup, seed: int = 0, strategy: str = "random", p: float = 0.1,
             import httpcore
             base = os.path.dirname(httpcore.__file__)
             prefixes = (os.path.join(base, "_sync") + os.sep, os.path.join(base, "_synchronization.py"))
-            with LineMonitor(s, prefixes) as lm:
+            # opcodes=True: inside the pool module a thread can also lose the CPU between any two bytecodes of a line
+            op_prefixes = (os.path.join(base, "_sync", "connection_pool.py"),) if opcodes else ()
+            with LineMonitor(s, prefixes, op_prefixes) as lm:
                 ok = s.run(wall_timeout)
             s.line_events = lm.lines
+            s.op_events = lm.ops
         else:
             ok = s.run(wall_timeout)
             s.line_events = 0
+            s.op_events = 0
         s.wall_ok = ok
     finally:
         sync_mod.threading = real
